@@ -77,7 +77,11 @@ HasDef(id, m) == id \in DOMAIN Defs /\ TableOf[id] = RangeTable(m)
 Gnss == mid \div 10
 
 \* empty attribute template (uniform record shape)
-Attr0 == [n |-> "", k |-> "", s |-> 0, m |-> << >>, c |-> << >>, g |-> 0, id |-> 0, t |-> ""]
+\* n name, k kind, s/m sign and magnitude, c code units, g/id constellation and mask ID,
+\* t text; ghost: b base field name, ix group indices, cg counter of the innermost group
+Attr0 == [n |-> "", k |-> "", s |-> 0, m |-> << >>, c |-> << >>, g |-> 0, id |-> 0, t |-> "",
+          b |-> "", ix |-> << >>, cg |-> ""]
+Tag(a, base, ixs, grp) == [a EXCEPT !.b = base, !.ix = ixs, !.cg = grp]
 IntAttr(nm, v)  == [Attr0 EXCEPT !.n = nm, !.k = "i", !.s = v.s, !.m = v.m]
 StrAttr(nm, cs) == [Attr0 EXCEPT !.n = nm, !.k = "s", !.c = cs]
 TxtAttr(nm, tx) == [Attr0 EXCEPT !.n = nm, !.k = "txt", !.t = tx]
@@ -94,6 +98,9 @@ Upsert(as, e) == LET i == PosOf(as, e.n) IN IF i = 0 THEN Append(as, e) ELSE [as
 
 ---------------------------------------------------------------------------
 Top  == stack[Len(stack)]
+\* counter attribute of the innermost open repeat group ("" outside groups / fixed count)
+CurGroup == LET G == {i \in 1 .. Len(stack) : stack[i].kind = "grp"}
+            IN  IF G = {} THEN "" ELSE stack[CHOOSE i \in G : \A j \in G : j <= i].cg
 AtEnd == Top.pc > Len(Top.body)
 Node == Top.body[Top.pc]
 Advanced == [stack EXCEPT ![Len(stack)].pc = @ + 1]
@@ -113,13 +120,13 @@ Begin ==
      ELSE /\ mid' = MidOf(p)
           /\ ident' = IdentOf(p)
           /\ IF HasDef(IdentOf(p), MidOf(p))
-             THEN /\ stack' = << [body |-> Defs[IdentOf(p)], pc |-> 1, it |-> 1, cnt |-> 1, kind |-> "top"] >>
+             THEN /\ stack' = << [body |-> Defs[IdentOf(p)], pc |-> 1, it |-> 1, cnt |-> 1, kind |-> "top", cg |-> ""] >>
                   /\ st' = "run"
                   /\ attrs' = << >>
              ELSE \* undefined identity: stub that keeps the payload
                   /\ stack' = << >>
                   /\ st' = "stub"
-                  /\ attrs' = << TxtAttr("DF002", IdentOf(p)) >>
+                  /\ attrs' = << Tag(TxtAttr("DF002", IdentOf(p)), "DF002", << >>, "") >>
   /\ UNCHANGED <<p, bits, off, idx, ints, sats, sigs, cells, mapsOk>>
 
 ---------------------------------------------------------------------------
@@ -175,17 +182,19 @@ Field ==
                    nm == Render(n, idx)
                    t  == Fields[n].t
                IN  IF (t = "PRN" /\ i > Len(sats)) \/ (t # "PRN" /\ i > Len(cells)) THEN Fail
-                   ELSE /\ attrs' = Upsert(attrs,
+                   ELSE /\ attrs' = Upsert(attrs, Tag(
                                       IF t = "PRN" THEN PrnAttr(nm, sats[i])
                                       ELSE IF t = "CPR" THEN PrnAttr(nm, sats[cells[i][1]])
-                                      ELSE SigAttr(nm, sigs[cells[i][2]]))
+                                      ELSE SigAttr(nm, sigs[cells[i][2]]), n, idx, CurGroup))
                         /\ stack' = Advanced
                         /\ UNCHANGED <<p, bits, off, idx, ints, sats, sigs, cells, mapsOk, ident, mid, st>>
      ELSE LET w == WidthOf(n) IN
           IF w < 0 \/ off + w > Len(bits) THEN Fail          \* overrun: nothing is written
           ELSE LET b  == SubSeq(bits, off + 1, off + w)
                    nm == Render(n, idx)
-                   a  == FieldValue(n, nm, b)
+                   a0 == FieldValue(n, nm, b)
+                   a  == IF a0.k = "bad" THEN a0
+                         ELSE Tag(a0, n, IF Fields[n].t = "STR" THEN << >> ELSE idx, CurGroup)
                IN
                IF a.k = "bad" THEN Fail
                ELSE LET as1 == IF Fields[n].t = "STR" THEN StrJoin(attrs, a) ELSE Upsert(attrs, a)
@@ -239,7 +248,8 @@ EnterGroup ==
   /\ LET c == CountOf(Node) IN
      IF ~c.ok THEN Fail
      ELSE /\ c.n > 0
-          /\ stack' = Append(Advanced, [body |-> Node.body, pc |-> 1, it |-> 1, cnt |-> c.n, kind |-> "grp"])
+          /\ stack' = Append(Advanced, [body |-> Node.body, pc |-> 1, it |-> 1, cnt |-> c.n, kind |-> "grp",
+                                        cg |-> IF Node.ct = "attr" THEN Node.ca ELSE ""])
           /\ idx' = Append(idx, 1)
           /\ UNCHANGED <<p, bits, off, attrs, ints, sats, sigs, cells, mapsOk, ident, mid, st>>
 
@@ -253,7 +263,7 @@ EnterOpt ==
   /\ st = "run" /\ ~AtEnd /\ Node.k = "opt"
   /\ IF Node.ca \notin DOMAIN ints THEN Fail
      ELSE /\ ints[Node.ca] = Node.cv
-          /\ stack' = Append(Advanced, [body |-> Node.body, pc |-> 1, it |-> 1, cnt |-> 1, kind |-> "opt"])
+          /\ stack' = Append(Advanced, [body |-> Node.body, pc |-> 1, it |-> 1, cnt |-> 1, kind |-> "opt", cg |-> ""])
           /\ UNCHANGED <<p, bits, off, idx, attrs, ints, sats, sigs, cells, mapsOk, ident, mid, st>>
 
 SkipOpt ==
